@@ -99,6 +99,7 @@ class Explorer(object):
         self.queries = 0
         self.solver_s = 0.0
         self.requires = 0         # assertions discharged
+        self.sym_requires = 0     # ... of which the condition was a symbolic formula
         self.require_labels = {}
         self.violations = []
         self.cut_reasons = {}
@@ -267,6 +268,7 @@ class Explorer(object):
             inputs = self.model_inputs()
             self._violation(label, inputs, detail)
             return False
+        self.sym_requires += 1
         cond = z3.simplify(cond)
         if z3.is_true(cond):
             return True
@@ -344,6 +346,7 @@ class Explorer(object):
                 'aborted': self.paths_aborted, 'cut': self.paths_cut, 'cut_reasons': self.cut_reasons,
                 'decisions': self.decisions, 'forks': self.forks, 'queries': self.queries,
                 'solver_s': round(self.solver_s, 4), 'requires': self.requires,
+                'sym_requires': self.sym_requires,
                 'require_labels': self.require_labels,
                 'violations': [v.as_dict() for v in self.violations],
                 'samples': self.samples, 'notes': self.notes,
@@ -1096,6 +1099,10 @@ class BV(Sym):
         return None
 
     def _arith(self, o, f, swap=False):
+        if isinstance(o, (float, np.floating, R, Fraction)):
+            # numpy: integer (op) float -> float64
+            me = R.lift(self.as_Z())
+            return f(R.lift(o), me) if swap else f(me, R.lift(o))
         c = self._coerce(o)
         if c is None:
             return NotImplemented
@@ -1148,7 +1155,16 @@ class BV(Sym):
             return BV(a.term >> b.term, dt)
         return BV(z3.LShR(a.term, b.term), dt)
 
+    def __truediv__(self, o):
+        o2 = o.as_Z() if isinstance(o, BV) else o
+        return R.lift(self.as_Z()) / o2
+
+    def __rtruediv__(self, o):
+        return R.lift(o) / R.lift(self.as_Z())
+
     def __floordiv__(self, o):
+        if isinstance(o, (float, np.floating, R, Fraction)):
+            return R.lift(self.as_Z()) // o
         c = self._coerce(o)
         if c is None:
             return NotImplemented
